@@ -341,4 +341,26 @@ def replay_contracts(a, rule_id):
     rep.add({'fn': 'recursive_call', '_results_holds': 'nothing', 'seed_present_at_first_evaluation': order[:1], 'ok': ok})
     if not ok:
         rep.fail(fn.qualname, 'replay:seed-first', f'recursive_call() evaluates the rule before the seed is in _results ({order[:1]})', fn.loc)
+    # growth: results at positions p0 <= p1 < p2 are accepted in turn, also a first result that consumes nothing (p0 == start)
+    for start, positions, want in ((5, [5, 7, 7], 7), (5, [5], 5), (5, [6, 8, 8], 8)):
+        results = {}
+        me, states, evaluated = engine(None, results)
+        me._attrs['pos'] = start
+        seq = list(positions)
+        saved: list = []
+
+        def rc2(ri, key, seq=seq):
+            if not seq:
+                raise Raised('FailedParse', ast.Pass())
+            return Stub(RR, node=f'N{len(seq)}', newpos=seq.pop(0))
+        me._attrs['rule_call'] = Hook(rc2)
+        me._attrs['save_result'] = Hook(lambda k, r, results=results, saved=saved: (results.__setitem__(k, r), saved.append(r._attrs['newpos']))[0])
+        ret, raised = _run(ModelInterp(a), me, fn, [Obj(name='r', is_lrec=True), 'KEY'])
+        got = ret._attrs['newpos'] if isinstance(ret, Stub) else None
+        ok = raised is None and got == want
+        rep.add({'fn': 'recursive_call', 'start': start, 'evaluations_end_at': positions, 'returns_result_ending_at': got, 'raised': raised, 'want': want, 'ok': ok})
+        if not ok:
+            rep.fail(fn.qualname, f'grow:{positions}', f'recursive_call() at position {start} with evaluations ending at {positions} (then failing) returns a result ending at '
+                     f'{got} / raises {raised}; required {want}: every result that ends further than the previous one is kept, starting with ANY first result '
+                     f'(a seed that consumes nothing is a result)', fn.loc)
     return rep
